@@ -119,6 +119,7 @@ type Thread struct {
 	locks     []int // object ids (mutex cell identity) currently held: encoded obj<<20|off
 	nlock     int
 	epoch     int // incremented at every lock release
+	leakReported bool
 }
 
 func (t *Thread) clone() *Thread {
@@ -617,6 +618,16 @@ func (s *State) check(cond *Expr, kind, msg string) bool {
 	theSolver.WantCore = true
 	r, m := theSolver.Check(append(append([]*Expr(nil), s.pc...), neg), true)
 	theSolver.WantCore = false
+	if r == Unsat && crossCheck != nil {
+		// second solver on every obligation the first one discharged
+		r2, _ := crossCheck.Check(append(append([]*Expr(nil), s.pc...), neg), false)
+		crossStats[r2.String()]++
+		if r2 != Unsat {
+			crossStats["disagree"]++
+			r = Unknown
+			theSolver.LastCore = nil
+		}
+	}
 	if r == Unsat {
 		rememberCore(neg)
 	}
